@@ -5,3 +5,7 @@ import Hfsm.Model.Basic
 import Hfsm.Model.Callback
 import Hfsm.Model.Tree
 import Hfsm.Model.Forward
+import Hfsm.Model.Commit
+import Hfsm.Model.Dispatch
+import Hfsm.Model.Serial
+import Hfsm.Model.Machine
